@@ -402,8 +402,7 @@ def worker_like_ctx(prop, ctx, seed, batch):
     bdec = Decider(derive_seed(seed, prop, 'batch', batch))
     dt_groups = sorted({(g[1], g[2]) for g in groups if g[0] == 'DateTime'})
     if prop == 'C17':
-        dt_all = sorted({(c, o) for (mt, c) in ctx['registered']['DateTime'] for o in callsim.DT_OPTS})
-        w['dt_focus'] = set(bdec.sample('dt-focus', dt_all, 3)) | {('en-us', 0)}
+        w['dt_focus'] = callsim.c17_dt_focus(bdec, ctx['registered']['DateTime'])
     else:
         w['dt_focus'] = set(bdec.sample('dt-focus', dt_groups, 3)) | {('en-us', 0)}
     w['p_heavy'] = 0.25
@@ -442,8 +441,16 @@ def run_check(prop, tier, seed, workers, batches=None, runs=None, do_minimise=Tr
                 n_rep += 1
                 lines.append('VIOLATION property=%s replay=%s' % (prop, path))
         jobs = batch_jobs(prop, tier, seed, ctx_file, batches, runs)
-        reports = orch.run_jobs(jobs, workers, 2 * 3600 if tier == 'quick' else 8 * 3600, scratch)
+        # determinism probe: the first 20 runs of batch 0 are executed a second time in another fresh interpreter
+        dup = dict(jobs[0], count=min(20, jobs[0]['count']))
+        reports = orch.run_jobs(jobs + [dup], workers, 2 * 3600 if tier == 'quick' else 8 * 3600, scratch)
+        dup_rep = reports.pop()
         agg = aggregate(reports)
+        a0 = dict((i, d) for i, d in reports[0]['digests'])
+        bad = [i for i, d in dup_rep['digests'] if a0.get(i) != d]
+        if bad and not reports[0]['violations']:
+            raise HarnessError('determinism probe failed: run seeds %r gave different event logs in two fresh interpreters' % bad[:5])
+        agg['determinism'] = {'seeds_run_twice': len(dup_rep['digests']), 'mismatches': len(bad)}
         agg['golden_disagreements'] = len(dis)
         agg['info'] = info
         found = {}
@@ -541,6 +548,8 @@ def write_ev(prop, tier, seed, agg, wall, nviol, jobs):
         'known_findings_hit': agg['known'],
         'hash_seeds': sorted(set(h for h in agg['hashseeds'] if h is not None)),
         'golden': agg.get('info'),
+        'determinism_selftest': agg.get('determinism'),
+        'seeds_per_hour': int(agg['runs'] / max(wall, 1e-6) * 3600),
         'components': {'real': ['recognizers_text (Recognizer, ModelFactory, Culture)', 'recognizers_number', 'recognizers_number_with_unit',
                                 'recognizers_date_time', 'recognizers_sequence', 'recognizers_choice', 'regex', 'real OS threads (decimal context and thread-locals are per thread)'],
                        'stub': ['thread scheduler (baton passing, line-granular pre-emption)', 'wall clock (SimDateTime seam)',
